@@ -376,6 +376,8 @@ void *c03_gate_opener(void *) {
   g.gate_open = true;
   if (g.p.out) c03_unlock();
   if (g.p.gate == 'b') c03_wake(g.gate_cv, 'b');
+  else if (g.p.gate == 'm') { c03_wake(g.gate_cv, 'b'); c03_wake(g.gate_cv, 's'); }   // a broadcast followed by a (superfluous) signal: all waiters still pass
+  else if (g.p.gate == 'M') { c03_wake(g.gate_cv, 's'); c03_wake(g.gate_cv, 'b'); }
   else for (int i = 0; i < g.p.waiters; i++) c03_wake(g.gate_cv, 's');
   if (!g.p.out) c03_unlock();
   return NULL;
@@ -868,7 +870,7 @@ rc::Gen<Case> genC03() {
     // signal (rather than broadcast) is only correct here when a single kind of waiter sits on each condition variable - true for this program
     os << "bb cap=" << std::get<0>(t) << " prod=" << std::get<1>(t) << " items=" << std::get<2>(t) << " cons=" << cons << " ne=" << std::get<4>(t) << " nf=" << std::get<5>(t) << " out=" << std::get<6>(t) << " try=" << ((std::get<0>(t) + std::get<1>(t) + std::get<2>(t)) % 3 == 0 ? 1 : 0);
     return os.str(); });
-  auto gate = gen::map(gen::tuple(rng(2, 5), gen::element('b', 's'), rng(0, 2), rng(1, 4)), [](const std::tuple<int, char, int, int> &t) { std::ostringstream os; os << "gate waiters=" << std::get<0>(t) << " gate=" << std::get<1>(t) << " out=" << std::get<2>(t) << " phases=" << std::get<3>(t) << " try=" << ((std::get<0>(t) + std::get<3>(t)) % 2); return os.str(); });
+  auto gate = gen::map(gen::tuple(rng(2, 5), gen::element('b', 's', 'm', 'M'), rng(0, 2), rng(1, 4)), [](const std::tuple<int, char, int, int> &t) { std::ostringstream os; os << "gate waiters=" << std::get<0>(t) << " gate=" << std::get<1>(t) << " out=" << std::get<2>(t) << " phases=" << std::get<3>(t) << " try=" << ((std::get<0>(t) + std::get<3>(t)) % 2); return os.str(); });
   auto pp = gen::map(gen::tuple(rng(2, 4), rng(1, 4), gen::element('b', 's'), rng(0, 2), rng(0, 2)), [](const std::tuple<int, int, char, int, int> &t) { std::ostringstream os; os << "pp waiters=" << std::get<0>(t) << " items=" << std::get<1>(t) << " gate=" << std::get<2>(t) << " out=" << std::get<3>(t) << " try=" << std::get<4>(t); return os.str(); });
   return gen::map(gen::tuple(gen::weightedOneOf<string>({{3, bb}, {2, gate}, {2, pp}}), genScheduleLong(), rng(0, 3), rng(0, 4)), [](const std::tuple<string, vector<uint8_t>, int, int> &x) {
     Case c; c.prop = "C03"; c.prog = std::get<0>(x); c.sched = std::get<1>(x); c.spurious = std::get<2>(x) != 0; c.budget = std::get<3>(x); return c; });
@@ -966,7 +968,7 @@ vector<Case> shapes_for(const string &prop) {
     v.push_back(shape("dsched C02\nobj w\nT X0.1.- R0.1.-\nT x0.1.-\nT r0.1.-\n"));
     v.push_back(shape("dsched C02\nopt spurious=1 budget=2\nobj w\nT x0.1.-\nT r0.1.-\nT x0.1.-\n"));
   } else if (prop == "C03") {
-    for (const char *p : {"bb cap=1 prod=1 items=2 cons=1 ne=s nf=s", "bb cap=1 prod=2 items=1 cons=2 ne=s nf=s", "bb cap=2 prod=1 items=3 cons=2 ne=b nf=s", "bb cap=1 prod=2 items=1 cons=2 ne=b nf=b out=1", "bb cap=2 prod=2 items=2 cons=2 ne=s nf=s out=1", "gate waiters=2 gate=b", "gate waiters=3 gate=b out=1", "gate waiters=2 gate=s phases=2", "gate waiters=2 gate=b try=1", "pp waiters=2 items=2 gate=s", "pp waiters=3 items=1 gate=b"}) {
+    for (const char *p : {"bb cap=1 prod=1 items=2 cons=1 ne=s nf=s", "bb cap=1 prod=2 items=1 cons=2 ne=s nf=s", "bb cap=2 prod=1 items=3 cons=2 ne=b nf=s", "bb cap=1 prod=2 items=1 cons=2 ne=b nf=b out=1", "bb cap=2 prod=2 items=2 cons=2 ne=s nf=s out=1", "gate waiters=2 gate=b", "gate waiters=3 gate=b out=1", "gate waiters=2 gate=s phases=2", "gate waiters=2 gate=b try=1", "pp waiters=2 items=2 gate=s", "pp waiters=3 items=1 gate=b", "gate waiters=3 gate=m", "gate waiters=4 gate=m out=1"}) {
       Case c; c.prop = "C03"; c.prog = p; v.push_back(c);
       Case d = c; d.spurious = true; d.budget = 2; v.push_back(d);
     }
